@@ -494,11 +494,18 @@ func (ospf *OSPFv2) DecodeFromBytes(data []byte, df gopacket.DecodeFeedback) err
 	ospf.Checksum = binary.BigEndian.Uint16(data[12:14])
 	ospf.AuType = binary.BigEndian.Uint16(data[14:16])
 	ospf.Authentication = binary.BigEndian.Uint64(data[16:24])
+	if int(ospf.PacketLength) > len(data) {
+		df.SetTruncated()
+		return fmt.Errorf("OSPF Version 2 packet length %d exceeds data length %d", ospf.PacketLength, len(data))
+	}
 
 	switch ospf.Type {
 	case OSPFHello:
+		if len(data) < 44 {
+			return fmt.Errorf("Packet too small for OSPF Version 2 Hello")
+		}
 		var neighbors []uint32
-		for i := 44; uint16(i+4) <= ospf.PacketLength; i += 4 {
+		for i := 44; i+4 <= int(ospf.PacketLength); i += 4 {
 			neighbors = append(neighbors, binary.BigEndian.Uint32(data[i:i+4]))
 		}
 		ospf.Content = HelloPkgV2{
@@ -514,8 +521,11 @@ func (ospf *OSPFv2) DecodeFromBytes(data []byte, df gopacket.DecodeFeedback) err
 			},
 		}
 	case OSPFDatabaseDescription:
+		if len(data) < 32 {
+			return fmt.Errorf("Packet too small for OSPF Version 2 Database Description")
+		}
 		var lsas []LSAheader
-		for i := 32; uint16(i+20) <= ospf.PacketLength; i += 20 {
+		for i := 32; i+20 <= int(ospf.PacketLength); i += 20 {
 			lsa := LSAheader{
 				LSAge:       binary.BigEndian.Uint16(data[i : i+2]),
 				LSOptions:   data[i+2],
@@ -537,7 +547,7 @@ func (ospf *OSPFv2) DecodeFromBytes(data []byte, df gopacket.DecodeFeedback) err
 		}
 	case OSPFLinkStateRequest:
 		var lsrs []LSReq
-		for i := 24; uint16(i+12) <= ospf.PacketLength; i += 12 {
+		for i := 24; i+12 <= int(ospf.PacketLength); i += 12 {
 			lsr := LSReq{
 				LSType:    binary.BigEndian.Uint16(data[i+2 : i+4]),
 				LSID:      binary.BigEndian.Uint32(data[i+4 : i+8]),
@@ -547,6 +557,9 @@ func (ospf *OSPFv2) DecodeFromBytes(data []byte, df gopacket.DecodeFeedback) err
 		}
 		ospf.Content = lsrs
 	case OSPFLinkStateUpdate:
+		if len(data) < 28 {
+			return fmt.Errorf("Packet too small for OSPF Version 2 Link State Update")
+		}
 		num := binary.BigEndian.Uint32(data[24:28])
 
 		lsas, err := getLSAsv2(num, data[28:])
@@ -559,7 +572,7 @@ func (ospf *OSPFv2) DecodeFromBytes(data []byte, df gopacket.DecodeFeedback) err
 		}
 	case OSPFLinkStateAcknowledgment:
 		var lsas []LSAheader
-		for i := 24; uint16(i+20) <= ospf.PacketLength; i += 20 {
+		for i := 24; i+20 <= int(ospf.PacketLength); i += 20 {
 			lsa := LSAheader{
 				LSAge:       binary.BigEndian.Uint16(data[i : i+2]),
 				LSOptions:   data[i+2],
